@@ -20,6 +20,7 @@ R02.5 rate-heterogeneity bins: the column likelihood is the bprob-weighted SUM o
       likelihoods (paired by zip in bin order), and its log-sum is taken after the mixture, not before.
 R02.6 site-HMM: the forward recursion multiplies the class probabilities on the left of the row-stochastic switch matrix.
 R02.8 psubs = Qd(distance), distance = length x the bin's rate.
+R02.9 one-contiguous-indel predicate of the gap-modelling models, exact on all word pairs of length <= 4 (abstract evaluation).
 R02.7 (shared with C11) each child's psub is the one selected by that child's name (R11.2), index arrays
       are paired with children positionally (R11.5), and the total is sum_i counts[i] * log(lh[i]) (R11.4).
 R05.9 (shared with C05) word probabilities formed as products of monomer probabilities are renormalised: the root
@@ -355,8 +356,68 @@ def r02_8(chk):
     chk.floor("R02.8", 2, "psub and distance definitions")
 
 
+def r02_9(chk):
+    chk.rule("R02.9", "in a gap-modelling multi-letter model a change between two words is instantaneous iff one position differs, or the differences are ONE contiguous indel: _ContinuousSubstitutionModel._is_any_indel is evaluated (its syntax tree interpreted, nothing imported) on ALL pairs of words of length 1..4 over {A, C, gap} and must answer True exactly when the words differ, every differing position pairs the gap with a base, the gap is always on the same word, and the differing positions are contiguous -- a second gap run after a matching position makes extra cells of Q non-zero")
+    from itertools import product
+
+    from ..minieval import Unhandled, evaluate
+
+    m = chk.repo.module("evolve/substitution_model.py")
+    q = "_ContinuousSubstitutionModel._is_any_indel"
+    if not m.has_func(q):
+        chk.unresolved("R02.9", key(m, q, "one contiguous indel"), m.rel, "helper not found under this name")
+        chk.floor("R02.9", 0, "")
+        return
+    fn = m.func(q)
+    ps = [p for p in params_of(fn) if p != "self"]
+    k = key(m, q, "one contiguous indel, on all word pairs of length <= 4")
+    G = "-"
+    top = 5 if chk.tier == "thorough" else 4
+    bad, n = [], 0
+
+    def oracle(x, y):
+        D = [i for i in range(len(x)) if x[i] != y[i]]
+        if not D:
+            return False
+        if any(x[i] != G and y[i] != G for i in D):
+            return False
+        if len({x[i] == G for i in D}) != 1:
+            return False
+        return D[-1] - D[0] + 1 == len(D)
+
+    try:
+        for L in range(1, top + 1):
+            words = ["".join(w) for w in product("AC" + G, repeat=L)]
+            for x in words:
+                for y in words:
+                    n += 1
+                    got = evaluate(fn, {ps[0]: x, ps[1]: y}, attrs={"gapmotif": G * L})
+                    if bool(got) != oracle(x, y) or isinstance(got, tuple):
+                        bad.append((x, y, got))
+    except Unhandled as e:
+        chk.unresolved("R02.9", k, m.loc(fn), f"_is_any_indel uses a construct the evaluator does not model: {e}")
+        chk.floor("R02.9", 0, "")
+        return
+    if bad:
+        x, y, got = bad[0]
+        chk.violation("R02.9", k, m.loc(fn), f"{len(bad)} of {n} word pairs are classified wrongly, e.g. {x!r} <-> {y!r} gives {got!r}: changes that are not one contiguous indel become instantaneous (or the reverse), so Q has the wrong non-zero cells for every model with model_gaps=True and motif_length >= 3")
+    else:
+        chk.ok("R02.9", k, m.loc(fn), f"all {n} pairs of words of length 1..{top} over {{A, C, gap}} classified as the definition requires")
+    # the caller: one difference, or (several and long indels allowed and one indel)
+    c = m.func("_ContinuousSubstitutionModel._is_instantaneous")
+    txt = " ".join(norm(r.value) for r in walk_no_nested(c) if isinstance(r, ast.Return) and r.value is not None)
+    okc = "diffs == 1" in txt and "diffs > 1" in txt and "self.long_indels_are_instantaneous" in txt and "self._is_any_indel(x, y)" in txt
+    if okc:
+        chk.ok("R02.9", key(m, "_ContinuousSubstitutionModel._is_instantaneous", "one difference or one indel"), m.loc(c), txt[:100])
+    else:
+        chk.unresolved("R02.9", key(m, "_ContinuousSubstitutionModel._is_instantaneous", "one difference or one indel"), m.loc(c), f"not the recognised form: {txt[:80]}")
+    chk.extra["R02.9_pairs"] = n
+    chk.floor("R02.9", 1, "_is_any_indel")
+
+
 def run(chk):
     r02_1(chk)
+    r02_9(chk)
     r02_8(chk)
     r02_6(chk)
     r02_2(chk)
